@@ -475,8 +475,9 @@ class CalendarSystem(metaclass=_CalendarSystemMeta):
             era_calculator = _SingleEraCalculator._ctor(era=single_era, ymd_calculator=year_month_day_calculator)
 
         self.__era_calculator = era_calculator
-        self.__CALENDAR_BY_ORDINAL[ordinal] = self
-        return self
+        # Publish atomically: if another thread registered this ordinal in the meantime, everybody gets that instance,
+        # so there is only ever one CalendarSystem per ordinal.
+        return cls.__CALENDAR_BY_ORDINAL.setdefault(ordinal, self)
 
     @property
     def id(self) -> str:
